@@ -68,8 +68,8 @@ def plan(tier, seed):
         "max_par": _max_par(),
         "params": {
             "soft_s": 1500 if quick else 5000,
-            "placements": 2 if quick else 8,
-            "nsets": 8 if quick else 48,
+            "placements": 2 if quick else 5,
+            "nsets": 8 if quick else 24,
         },
         "hard_timeout_s": 2700 if quick else 9000,
     }
